@@ -59,3 +59,24 @@ pub(crate) fn stub_memchr(x: u8, text: &[u8]) -> Option<usize> {
     }
     None
 }
+
+/// JSON values that the model builds with its constructor functions and the real serde_json with `json!`
+#[cfg(kani)]
+pub(crate) fn vnum(n: u64) -> Value {
+    Value::Number(n)
+}
+#[cfg(not(kani))]
+pub(crate) fn vnum(n: u64) -> Value {
+    serde_json::json!(n)
+}
+#[cfg(kani)]
+pub(crate) fn vobj2(k1: &str, v1: Value, k2: &str, v2: Value) -> Value {
+    Value::Object(vec![(s(k1), v1), (s(k2), v2)])
+}
+#[cfg(not(kani))]
+pub(crate) fn vobj2(k1: &str, v1: Value, k2: &str, v2: Value) -> Value {
+    let mut m = serde_json::Map::new();
+    m.insert(s(k1), v1);
+    m.insert(s(k2), v2);
+    Value::Object(m)
+}
